@@ -95,6 +95,26 @@ class HBatch(BatchBase):
     def _try_switch_active_batch(self):
         if self.T.registry.get(self.kind) is self:
             self.T.registry[self.kind] = HBatch(self.T, self.kind, self.index + 1)
+        self._hook_fault("switch_raise", counted=True)
+
+    def _hook_fault(self, name, counted=False):
+        """params.kinds[k][name]: a user hook of the batch (not its flush body) that raises - `cancel_raise: id` in
+        _cancel(), `switch_raise: [n, id]` in the n-th _try_switch_active_batch() call of a batch, `to_str_raise: id`
+        in to_str() (used by dump_perf_stats under COLLECT_PERF_STATS).  Implementation-only scenario class."""
+        f = self.T.kinds.get(str(self.kind), {}).get(name)
+        if f is None:
+            return
+        if counted:
+            n = self._hook_calls = getattr(self, "_hook_calls", 0) + 1
+            if n != f[0]:
+                return
+            f = f[1]
+        self.T.aux({"AuxHookRaise": [self.kind, self.index, name, f]})
+        raise self.T.err(f)
+
+    def to_str(self):
+        self._hook_fault("to_str_raise")
+        return BatchBase.to_str(self)
 
     def get_priority(self):
         p = self.T.kinds.get(str(self.kind), {}).get("prio")
@@ -155,7 +175,7 @@ class HBatch(BatchBase):
             raise T.err(ra[1])
 
     def _cancel(self):
-        pass
+        self._hook_fault("cancel_raise")
 
 
 class HItem(BatchItemBase):
@@ -531,6 +551,10 @@ def run_one(c):
     saved = {k: getattr(opts, k) for k in OPTION_NAMES + ["MAX_TASK_STACK_SIZE", "SCHEDULER_STATE_DUMP_INTERVAL"]}
     saved_utime = scheduler.utime
     params = c.get("params", {})
+    if params.get("hook_faults"):
+        # these programs are tiny; a scheduler that spins on a batch whose items are never answered is cut short
+        import signal
+        signal.alarm(5)
     scheduler.reset()
     profiler.reset()
     T = Tr(c)
@@ -539,6 +563,23 @@ def run_one(c):
         lambda b: T.ev.append({"EvBefore": [b.kind, b.index]}) if isinstance(b, HBatch) else None)
     sch.on_after_batch_flush.subscribe(
         lambda b: T.ev.append({"EvAfter": [b.kind, b.index]}) if isinstance(b, HBatch) else None)
+    bsub = params.get("before_sub")
+    if bsub is not None:
+        # params.before_sub = [kind, "flush" | "value"]: a further on_before_batch_flush subscriber (after the logging
+        # one) that flushes the batch about to be flushed itself / asks its first item for its value, swallowing
+        # whatever that raises; the scheduler's own batch.flush() then fails with BatchingError
+        def meddle(b):
+            if isinstance(b, HBatch) and b.kind == bsub[0]:
+                T.aux({"AuxBeforeSub": [b.kind, b.index, bsub[1]]})
+                try:
+                    if bsub[1] == "flush":
+                        b.flush()
+                    else:
+                        b.items[0].value()
+                except BaseException as e:
+                    if isinstance(e, _common.Hang):
+                        raise
+        sch.on_before_batch_flush.subscribe(meddle)
     outs = []
     try:
         opts.MAX_TASK_STACK_SIZE = params.get("maxstack", 1000000)
